@@ -157,8 +157,10 @@ func (d *Dumper) ValueLit(in any, optFns ...ValueLitOptFn) string {
 	switch tpe.Kind() {
 	case reflect.Ptr:
 		kind := rv.Elem().Kind()
-		if _, ok := basicKinds[kind]; ok {
-			return fmt.Sprintf("func(v %s) *%s { return &v }(%s)", kind, kind, d.ValueLit(rv.Elem(), optFns...))
+		if _, ok := basicKinds[kind]; ok || kind == reflect.String {
+			// a constant is not addressable, and the pointee may be a named type
+			t := d.ReflectTypeLit(rv.Elem().Type())
+			return fmt.Sprintf("func(v %s) *%s { return &v }(%s)", t, t, d.ValueLit(rv.Elem(), optFns...))
 		}
 		return fmt.Sprintf("&(%s)", d.ValueLit(rv.Elem(), optFns...))
 	case reflect.Struct:
